@@ -95,6 +95,8 @@ def g_prog(rng):
             "followup": any(f["stop_after"] for f in flows)}
     if rng.random() < 0.35:
         case["args2"] = True  # every action / event of the pool carries a second keyword argument
+    if rng.random() < 0.12:
+        case["evtype"] = "action"
     return case
 
 
@@ -172,6 +174,11 @@ def g_prog_paths(rng):
         case["args2"] = True
     if rng.random() < 0.3:
         make_rounds(rng, case)
+    if rng.random() < 0.25:
+        case["evtype"] = "action"  # the triggering event is an action event (UtteranceUserActionFinished), matched as `UtteranceUserAction.Finished(...)`
+    for f in flows:
+        if f["prio"] and rng.random() < 0.2:
+            f["prio0"] = rng.choice(["0.3", "0.95", "1.0"])  # an earlier `priority` statement that the declared one overrides
     return case
 
 
@@ -180,6 +187,10 @@ def make_rounds(rng, case):
     1..2 further events E whose payload has other values — the winner of every round follows that round's payload."""
     case["mode"] = "activate"
     case["noend"] = True
+    if rng.random() < 0.4:
+        # the SAME instance reaches its match statement again: body in `while True` (the losers are out of the later rounds)
+        case["loopbody"] = True
+        case["mode"] = "start"
     for f in case["flows"]:
         if f["shape"] not in ("direct", "await"):
             f["shape"] = "direct"
@@ -411,6 +422,8 @@ def render(case):
         deco = f'@loop("{f["loop"]}")\n' if f["loop"] else ""
         pat = ", ".join(f"{k}={v}" for k, v in f["pat"].items())
         prio = [f"  priority {f['prio']}"] if f["prio"] else []
+        if f["prio"] and f.get("prio0"):
+            prio.insert(0, f"  priority {f['prio0']}")
         body = []
         head = f"flow f{i}"
         if f["shape"] == "await":
@@ -438,11 +451,18 @@ def render(case):
             body += ["  match F()", "  send $r.Start()"]
         if not case.get("noend"):
             body.append("  match Never()")
+        if case.get("loopbody") and f["shape"] in ("direct", "await"):
+            body = body[: len(prio)] + ["  while True"] + ["  " + x for x in body[len(prio):]]
         out.append(deco + head + "\n" + "\n".join(body) + "\n")
     kw = "activate" if case["mode"] == "activate" else "start"
     top = lambda i, f: ("o" if f["shape"] == "borrow" else "f") + str(i)  # noqa
     out.append("flow main\n" + "".join(f"  {kw} {top(i, f)}\n" for i, f in enumerate(case["flows"])) + "  match Never()\n")
-    return "\n".join(out)
+    src = "\n".join(out)
+    if case.get("evtype") == "action":
+        import re
+
+        src = re.sub(r"(?<![A-Za-z0-9_.])E\(", "UtteranceUserAction.Finished(", src)
+    return src
 
 
 # ----------------------------------------------------------------------------- implementation (recorders)
@@ -583,13 +603,14 @@ def run_prog(case):
     except Exception as e:  # noqa
         obs["skip"] = "parse:" + type(e).__name__ + ":" + str(e)[:80]
         return obs
-    events = [dict({"type": "E"}, **case["payload"])]
+    etype = "UtteranceUserActionFinished" if case.get("evtype") == "action" else "E"
+    events = [dict({"type": etype}, **case["payload"])]
     if any(f.get("trigger") == "E2" for f in case["flows"]):
         events.append(dict({"type": "E2"}, **case["payload"]))
     if case.get("followup"):
         events += [{"type": "F"}, {"type": "G"}]
     for pl in case.get("rounds", []):
-        events.append(dict({"type": "E"}, **pl))
+        events.append(dict({"type": etype}, **pl))
     seen_sig = set()
     # "tree": systematic exploration of the tie-break tree — every run reports the candidate count of each random.choice
     # call; for every call beyond the forced prefix with n > 1 candidates the alternatives 1..min(n,4)-1 are scheduled.
@@ -1097,7 +1118,8 @@ def oracle_run(case, run):
 
 
 def rounds_judged(case, run):
-    return sum(1 for k in range(1, 1 + len(case.get("rounds", []))) if k < len(run["steps"]) and len(run["steps"][k].get("inst", {})) == len(case["flows"]))
+    return sum(1 for k in range(1, 1 + len(case.get("rounds", []))) if k < len(run["steps"])
+               and (len(run["steps"][k].get("inst", {})) == len(case["flows"]) or case.get("loopbody") and len(run["steps"][k].get("inst", {})) >= 2))
 
 
 def oracle_round(case, run, k):
@@ -1105,18 +1127,20 @@ def oracle_round(case, run, k):
     flows = case["flows"]
     step0 = run["steps"][k]
     before = step0.get("before", run["before"])
-    if len(step0.get("inst", run["inst"])) != len(flows):
+    if len(step0.get("inst", run["inst"])) != len(flows) and not (k > 0 and case.get("loopbody")):
         return None  # a competing flow never got (re)started, nothing to judge
     calls0 = run["calls"][(run["steps"][k - 1].get("ncalls", 0) if k else 0): step0.get("ncalls", 0)]
     loops = {}
     for i, f in enumerate(flows):
-        b = before[f"f{i}"]
-        loops[i] = b["loop"]
+        b = before.get(f"f{i}")
+        if b is not None:  # (loop bodies: a flow that failed in an earlier round is out of the game)
+            loops[i] = b["loop"]
     out = step0["out"]
     starts = [e for e in out if e["type"].startswith("Start") and e["type"].endswith("Action") or e["type"] == "Foo"]
     byloop = {}
     for i, f in enumerate(flows):
-        byloop.setdefault(loops[i], []).append(i)
+        if i in loops:
+            byloop.setdefault(loops[i], []).append(i)
     for loop, idx in byloop.items():
         names = {loop_name(flows[i], i) for i in idx}
         if len(names) != 1:
@@ -1266,6 +1290,10 @@ def _tags(case, obs):
                 t.append("pre:" + p_)
             if f.get("wrap"):
                 t.append(f"wrap:{f['wrap']}")
+        if case.get("evtype"):
+            t.append("trigger:action-event")
+        if case.get("loopbody"):
+            t.append("loop-body")
         if case.get("rounds"):
             t.append(f"later-rounds-judged:{sum(rounds_judged(case, r) for r in obs['runs'] if 'steps' in r)}")
     for c in calls:
